@@ -1,6 +1,6 @@
 (* Line protocol for the extracted connection model of C04 (Model/ChanPipe.v).
 
-   <mode> <look>,<sb>,<ch>,<clen>,<nw> <script> <tok> <tok> ...
+   <mode> <look>,<sb>,<clen>,<nw> <script> <tok> <tok> ...
 
    mode   val   every token is one VISIBLE step of the named thread; the invisible
                 steps of that thread (outbuf.get, outbuf.skip, parser work) that
@@ -8,7 +8,7 @@
                 eagerly (the real thread runs on to its next labelled operation)
           raw   every token is exactly one step of the model (visible or not)
    script requests separated by '/':  <expect 0|1><close 0|1>:<w1.w2...|->   ('-' = no request)
-   tok    i:<env> (I/O thread) | w<k>:<env> (worker k);  env:  - | s<rs><ws> | r<k>.<frag> | e | n<k> | q (an access of self.request: answered
+   tok    i:<env> (I/O thread) | w<k>:<env> (worker k);  env:  - | s<rs><ws> | r<k>.<frag> | e | n<len>.<k> | q (an access of self.request: answered
           'skip' unless the thread is at the one such access the model represents)
    answer one field per token separated by '|':  X (not enabled) or <label>;<state>
           label:  A:l T:l:ok Rl:l Wt Wk N:l R:a W:a S:len:n Rv Sel Tr  ('tau' for an invisible step in raw mode)
@@ -40,15 +40,45 @@ let tid_s = function None -> "-" | Some TIo -> "io" | Some (TW i) -> "w" ^ strin
 
 let tok_s = function TResp (i, k) -> Printf.sprintf "r%d.%d" (ni i) (ni k) | TCont (i, k) -> Printf.sprintf "c%d.%d" (ni i) (ni k)
 
+
+let fl_s (f : flst) = match f.fpc with FlLoad -> "FlLoad" | FlGet -> "FlGet" | FlSend -> "FlSend" | FlSkip -> "FlSkip"
+  | FlTotR -> "FlTotR" | FlTotW -> "FlTotW" | FlLen -> "FlLen" | FlPop -> "FlPop"
+let sc_s = function ScAcq -> "ScAcq" | ScApp -> "ScApp" | ScTotR -> "ScTotR" | ScTotW _ -> "ScTotW" | ScFl f -> "ScFl." ^ fl_s f
+  | ScRel -> "ScRel" | ScRelX -> "ScRelX"
+let at_s = function AtAcq -> "AtAcq" | AtNotify -> "AtNotify" | AtRel -> "AtRel"
+let hc_s = function HcAcq -> "HcAcq" | HcBufs -> "HcBufs" | HcTot -> "HcTot" | HcConn -> "HcConn" | HcNotify -> "HcNotify"
+  | HcRel -> "HcRel" | HcConn2 -> "HcConn2"
+let iopc_s = function
+  | IoRd1 -> "IoRd1" | IoRd2 -> "IoRd2" | IoRd3 -> "IoRd3" | IoRd4 -> "IoRd4" | IoWr1 -> "IoWr1" | IoWr2 -> "IoWr2"
+  | IoWr3 -> "IoWr3" | IoSel -> "IoSel" | IoHrConn -> "IoHrConn" | IoRecv -> "IoRecv" | IoHrWConn -> "IoHrWConn"
+  | IoRcAcq -> "IoRcAcq" | IoRcWc -> "IoRcWc" | IoRcCwf -> "IoRcCwf" | IoRcItem -> "IoRcItem" | IoRcChk -> "IoRcChk"
+  | IoRcSc c -> "IoRcSc." ^ sc_s c | IoRcApp -> "IoRcApp" | IoRcApp2 -> "IoRcApp2" | IoRcLen -> "IoRcLen"
+  | IoRcAt a -> "IoRcAt." ^ at_s a | IoRcRel -> "IoRcRel" | IoRcRelX -> "IoRcRelX"
+  | IoHwConn -> "IoHwConn" | IoHwReq -> "IoHwReq" | IoHwFlU f -> "IoHwFlU." ^ fl_s f | IoHwTot -> "IoHwTot"
+  | IoHwTry -> "IoHwTry" | IoHwFlL f -> "IoHwFlL." ^ fl_s f | IoHwNTot -> "IoHwNTot" | IoHwNotify -> "IoHwNotify"
+  | IoHwRel -> "IoHwRel" | IoHwRelX -> "IoHwRelX" | IoHwExcW -> "IoHwExcW" | IoHwCwf -> "IoHwCwf" | IoHwTot2 -> "IoHwTot2"
+  | IoHwWCwf -> "IoHwWCwf" | IoHwWWc -> "IoHwWWc" | IoHwWc -> "IoHwWc"
+  | IoHc (h, eof) -> "IoHc." ^ hc_s h ^ (if eof then ".eof" else "") | IoDead -> "IoDead"
+let wkpc_s = function
+  | WAcqD -> "WAcqD" | WWait -> "WWait" | WParked -> "WParked" | WRelD -> "WRelD" | WSvReq -> "WSvReq" | WSvConn -> "WSvConn"
+  | WWsConn -> "WWsConn" | WWsAcq -> "WWsAcq" | WWsHw -> "WWsHw" | WWsConn2 -> "WWsConn2" | WWsRelX -> "WWsRelX"
+  | WWsRot -> "WWsRot" | WWsApp -> "WWsApp" | WWsTotR -> "WWsTotR" | WWsTotW _ -> "WWsTotW" | WWsChk -> "WWsChk"
+  | WWsFl f -> "WWsFl." ^ fl_s f | WWsExcW -> "WWsExcW" | WWsChk2 -> "WWsChk2" | WWsTrig -> "WWsTrig" | WWsRel -> "WWsRel"
+  | WCbAcq -> "WCbAcq" | WCbCwf -> "WCbCwf" | WCbReq -> "WCbReq" | WCbClr -> "WCbClr" | WCbRel -> "WCbRel"
+  | WKbLen -> "WKbLen" | WKbHw -> "WKbHw" | WKbAcq -> "WKbAcq" | WKbPop -> "WKbPop" | WKbConn -> "WKbConn" | WKbReq -> "WKbReq"
+  | WKbAt a -> "WKbAt." ^ at_s a | WKbConn2 -> "WKbConn2" | WKbSc c -> "WKbSc." ^ sc_s c | WKbRel -> "WKbRel" | WKbRelX -> "WKbRelX"
+  | WTlConn -> "WTlConn" | WTlTrig -> "WTlTrig"
+
 let state_s (p : params) (st : state) =
   let s = st.sh in
-  Printf.sprintf "rq=%s;tot=%d;obs=%s;conn=%s;wc=%s;cwf=%s;q=%d;rl=%s;ol=%s;dl=%s;wire=%d;arr=%s;st=%s;ex=%s;sc=%s;wsc=%s;own=%d;ok=%s%s%s%s%s"
+  Printf.sprintf "rq=%s;tot=%d;obs=%s;conn=%s;wc=%s;cwf=%s;q=%d;rl=%s;ol=%s;dl=%s;wire=%d;arr=%s;st=%s;ex=%s;sc=%s;wsc=%s;own=%d;pc=%s;ok=%s%s%s%s%s"
     (ints s.requests) (int_of_z s.total)
     (String.concat "." (List.map (fun b -> string_of_int (List.length b)) s.obs))
     (b01 s.connected) (b01 s.will_close) (b01 s.cwf) (ni s.queue)
     (tid_s s.rlock) (tid_s s.olock) (tid_s s.dlock)
     (List.length s.wire) (ints s.arrivals) (ints s.starts) (ints s.execs)
     (b01 s.sent_continue) (b01 s.wsc) (ni (owners p.p_nw st.wk))
+    (String.concat "," (iopc_s st.io.ipc :: List.init (ni p.p_nw) (fun k -> wkpc_s (st.wk (nat_of_int k)).wpc)))
     (b01 (wire_ok p st)) (b01 (once_ok st)) (b01 (one_ok p st)) (b01 (entry_ok p st)) (b01 (quiescent_ok p st))
 
 let parse_params (s : string) : int list = List.map int_of_string (String.split_on_char ',' s)
@@ -67,7 +97,10 @@ let parse_env (s : string) : env =
   else match s.[0] with
   | 's' -> ESel (s.[1] = '1', s.[2] = '1')
   | 'e' -> EEof
-  | 'n' -> ESend (nat_of_int (int_of_string (String.sub s 1 (String.length s - 1))))
+  | 'n' ->
+      (match String.split_on_char '.' (String.sub s 1 (String.length s - 1)) with
+       | [l; k] -> ESend (nat_of_int (int_of_string l), nat_of_int (int_of_string k))
+       | _ -> failwith "bad send")
   | 'r' ->
       (match String.split_on_char '.' (String.sub s 1 (String.length s - 1)) with
        | [k; f] -> ERecv (nat_of_int (int_of_string k), f = "1")
@@ -111,8 +144,8 @@ let handle (words : string list) : string =
   match words with
   | mode :: ps :: script :: toks ->
       let p = match parse_params ps with
-        | [look; sb; ch; clen; nw] ->
-            { p_look = nat_of_int look; p_sb = z_of_int sb; p_ch = nat_of_int ch; p_clen = nat_of_int clen;
+        | [look; sb; clen; nw] ->
+            { p_look = nat_of_int look; p_sb = z_of_int sb; p_clen = nat_of_int clen;
               p_nw = nat_of_int nw; p_script = parse_script script }
         | _ -> failwith "bad params" in
       let st = ref init in
